@@ -142,7 +142,7 @@ MANIFEST = {
 }
 
 TOL = 1e-9
-KINDS = {0: "cubic", 1: "gap", 2: "nasvel", 3: "index"}
+KINDS = {0: "cubic", 1: "gap", 2: "nasvel", 3: "index", 4: "pair"}
 
 warnings.filterwarnings("ignore")
 
@@ -255,15 +255,18 @@ def gen_newmark(rng, forced=None):
     terms = []
     if terms_on:
         for _ in range(int(rng.integers(1, 3))):
-            kind = int(forced.get("kind", rng.integers(0, 4)))
+            kind = int(forced.get("kind", rng.integers(0, 5)))
             p = int(rng.integers(0, n))
             q = int(rng.integers(0, n))
             kk = float(k[p] if k[p] > 0 else m[p] / h / h)
-            c = {0: 0.3 * kk, 1: kk, 2: 0.1 * float(m[p]) if m[p] > 0 else 0.01 * kk * h * h, 3: 0.02 * kk / nt}[kind]
-            g = {0: 0.0, 1: 0.2, 2: 0.0, 3: 0.1 * kk}[kind]
+            c = {0: 0.3 * kk, 1: kk, 2: 0.1 * float(m[p]) if m[p] > 0 else 0.01 * kk * h * h, 3: 0.02 * kk / nt, 4: 0.2 * kk}[kind]
+            g = {0: 0.0, 1: 0.2, 2: 0.0, 3: 0.1 * kk, 4: 0.05 * kk * h}[kind]
             T = rng.standard_normal(n) * (rng.random(n) < 0.7)
             if not T.any():
                 T[p] = 1.0
+            if kind == 4:
+                # two callback outputs: the transform has two columns
+                T = np.column_stack([T, rng.standard_normal(n) * (rng.random(n) < 0.7)])
             terms.append({"kind": kind, "p": p, "q": q, "c": c, "g": g, "T": T.tolist()})
     spec.update(F=F.tolist(), d0=None if d0 is None else d0.tolist(), v0=None if v0 is None else v0.tolist(),
                 rf=rf, terms=terms, nt=nt, n=n, layout=str(rng.choice(["C", "F"])))
@@ -496,8 +499,10 @@ def _zfun(t):
         elif kind == 2:
             w = (x[p] - xp[p]) / h
             z = c * (w * abs(w))
-        else:
+        elif kind == 3:
             z = c * x[p] * float(j) + g
+        else:
+            return np.array([c * x[p], g * ((x[p] - xp[p]) / h)])
         return np.array([z])
 
     return f
@@ -511,7 +516,7 @@ def run_newmark(spec):
         lay = spec.get("layout", "C")
         ts = ode.SolveNewmark(_arr(spec["m"], lay), _arr(spec["b"], lay), _arr(spec["k"], lay), spec["h"], rf=spec.get("rf"))
         if spec.get("terms"):
-            ts.def_nonlin({"t%d" % i: (_zfun(t), np.array(t["T"], float).reshape(-1, 1))
+            ts.def_nonlin({"t%d" % i: (_zfun(t), np.array(t["T"], float).reshape(spec["n"], -1))
                            for i, t in enumerate(spec["terms"])})
         sol = ts.tsolve(np.array(spec["F"], float), _arr(spec["d0"]), _arr(spec["v0"]))
     except IndexError:
@@ -616,38 +621,80 @@ def _cmp(ctx, stream, spec, name, impl, model, scale):
 
 
 def _newmark_requests(spec):
-    """protocol lines for one newmark spec: ('mx' line, ['sc' lines per non-rf DOF] or [], 'rf' handled in python)"""
+    """protocol lines for one newmark spec: the `mxf` line (whole tsolve on all n rows: m / m=None, rf partition, nonlinear
+    terms through the model's def_nonlin), then one `sc` line per non-rf DOF of a diagonal linear system"""
     M, B, K = _mats(spec)
     nonrf, rf = _parts(spec)
     n, nt, h = spec["n"], spec["nt"], spec["h"]
     F = np.array(spec["F"], float).reshape(n, -1)
     d0 = np.zeros(n) if spec["d0"] is None else np.array(spec["d0"], float)
     v0 = np.zeros(n) if spec["v0"] is None else np.array(spec["v0"], float)
-    ix = np.ix_(nonrf, nonrf)
+    terms = spec.get("terms") or []
     nn = len(nonrf)
-    lines = []
-    if nn:
-        terms = spec.get("terms") or []
-        parts = ["mx", str(nn), str(F.shape[1]), _bits(h), _bl(M[ix]), _bl(B[ix]), _bl(K[ix]), _bl(F[nonrf].T),
-                 _bl(d0[nonrf]), _bl(v0[nonrf]), str(len(terms))]
-        for t in terms:
-            parts += [str(t["kind"]), str(t["p"]), str(t["q"]), _bits(t["c"]), _bits(t["g"]), _bl(t["T"])]
-        lines.append(" ".join(parts))
-        if _is_diag(spec) and not terms:
-            for i in nonrf:
-                lines.append(" ".join(["sc", str(F.shape[1]), _bits(M[i, i]), _bits(B[i, i]), _bits(K[i, i]), _bits(h),
-                                       _bits(d0[i]), _bits(v0[i]), _bl(F[i])]))
+    parts = ["mxf", str(n), str(F.shape[1]), _bits(h)]
+    parts += ["0"] if spec["m"] is None else ["1", _bl(M)]
+    parts += [_bl(B), _bl(K), _bl(F.T), _bl(d0), _bl(v0), str(len(rf))] + [str(i) for i in rf] + [str(len(terms))]
+    for t in terms:
+        T = np.array(t["T"], float).reshape(nn, -1)
+        parts += [str(t["kind"]), str(t["p"]), str(t["q"]), _bits(t["c"]), _bits(t["g"]), str(T.shape[1]), _bl(T.T)]
+    lines = [" ".join(p for p in parts if p != "")]
+    if nn and _is_diag(spec) and not terms:
+        for i in nonrf:
+            lines.append(" ".join(["sc", str(F.shape[1]), _bits(M[i, i]), _bits(B[i, i]), _bits(K[i, i]), _bits(h),
+                                   _bits(d0[i]), _bits(v0[i]), _bl(F[i])]))
     return lines
 
 
-def _parse_hist(rep, n, nt):
+def _zout_request(spec, d):
+    """`zout` line: sol.z by the model's zOut on the displacement history `d` (n x nt, no rf partition)"""
+    n, nt, h = spec["n"], spec["nt"], spec["h"]
+    d0 = np.zeros(n) if spec["d0"] is None else np.array(spec["d0"], float)
+    v0 = np.zeros(n) if spec["v0"] is None else np.array(spec["v0"], float)
+    parts = ["zout", str(n), str(nt), _bits(h), _bl(d0 - v0 * h), _bl(np.asarray(d, float).T), str(len(spec["terms"]))]
+    for t in spec["terms"]:
+        T = np.array(t["T"], float).reshape(n, -1)
+        parts += [str(t["kind"]), str(t["p"]), str(t["q"]), _bits(t["c"]), _bits(t["g"]), str(T.shape[1]), _bl(T.T)]
+    return " ".join(parts)
+
+
+def _z_compare(ctx, stream, spec, zimpl, r):
+    zw, nt = _zwidths(spec), spec["nt"]
+    if not r.startswith("ok"):
+        ctx.disagree(stream, spec, "sol.z", r[:40])
+        return
+    x = _unbits(r.split()[1:])
+    if x.size != nt * sum(zw):
+        ctx.disagree(stream, spec, "sol.z", "bad-size")
+        return
+    at = 0
+    for i, rr in enumerate(zw):
+        zm = x[at: at + nt * rr].reshape(nt, rr).T
+        at += nt * rr
+        ctx.count("newmark:z-model")
+        zi = np.asarray(zimpl.get("t%d" % i, np.zeros((0, 0))), float)
+        _cmp(ctx, stream + "-" + KINDS[spec["terms"][i]["kind"]], spec, "z", zi, zm,
+             max(float(np.abs(zm).max()), float(np.abs(zi).max()) if zi.size else 0.0, 1e-300))
+
+
+def _zwidths(spec):
+    return [np.array(t["T"], float).reshape(len(_parts(spec)[0]), -1).shape[1] for t in spec.get("terms") or []]
+
+
+def _parse_hist(rep, n, nt, zw=()):
+    """-> (d, v, a) or (d, v, a, [z_i of shape (r_i, nt)]) when widths `zw` of the callback outputs are given"""
     if not rep.startswith("ok"):
         return rep
     x = _unbits(rep.split()[1:])
-    if x.size != 3 * n * nt:
+    if x.size != 3 * n * nt + nt * sum(zw):
         return "bad-size"
-    x = x.reshape(3, nt, n)
-    return x[0].T, x[1].T, x[2].T
+    y = x[: 3 * n * nt].reshape(3, nt, n)
+    if not zw:
+        return y[0].T, y[1].T, y[2].T
+    zs, at = [], 3 * n * nt
+    for r in zw:
+        zs.append(x[at: at + nt * r].reshape(nt, r).T)
+        at += nt * r
+    return y[0].T, y[1].T, y[2].T, zs
 
 
 def _cond_ok(spec):
@@ -660,6 +707,17 @@ def _cond_ok(spec):
     A = M[ix] / h / h + B[ix] / (2 * h) + K[ix] / 3
     try:
         return np.linalg.cond(A) <= 1e6
+    except np.linalg.LinAlgError:
+        return False
+
+
+def _rf_cond_ok(spec):
+    _, rf = _parts(spec)
+    if not rf:
+        return True
+    K = _mats(spec)[2]
+    try:
+        return np.linalg.cond(K[np.ix_(rf, rf)]) <= 1e6
     except np.linalg.LinAlgError:
         return False
 
@@ -678,7 +736,7 @@ def _newmark_cases(ctx):
         {"mnone": True, "form": "diag"}, {"rigid": True, "form": "diag", "mnone": False, "massless": False},
         {"quasistatic": True, "form": "diag", "mnone": False, "terms": False, "rigid": False, "nt": 12},
         {"quasistatic": True, "form": "full", "mnone": False, "terms": False, "rigid": False},
-    ] + [{"terms": True, "kind": kk, "form": f} for kk in range(4) for f in ("diag", "full")]
+    ] + [{"terms": True, "kind": kk, "form": f} for kk in range(5) for f in ("diag", "full")]
     for p in pins:
         cases.append(gen_newmark(rng, p))
     for _ in range(ctx.pick(2000, 12000)):
@@ -698,11 +756,14 @@ def _corr_newmark(ctx):
         if not _cond_ok(spec):
             ctx.skip("newmark: cond(A) > 1e6")
             continue
+        if not _rf_cond_ok(spec):
+            ctx.skip("newmark: cond(k_rf) > 1e6")
+            continue
         lines = _newmark_requests(spec)
         kept.append((spec, len(req), len(lines)))
         req += lines
     rep = drv.ask(req)
-    rfjobs = []
+    rfjobs, zjobs = [], []
     for spec, at, cnt in kept:
         impl = run_newmark(spec)
         n, nt = spec["n"], spec["nt"]
@@ -740,14 +801,20 @@ def _corr_newmark(ctx):
         # the extrapolated displacement De enters the last v and a
         sd = max(sd, float(np.abs(impl["d"][:, -2] + 2 * h * impl["v"][:, -1]).max()))
         if cnt:
-            got = _parse_hist(rep[at], len(nonrf), nt)
+            # the whole tsolve on all n rows (model: tsolveRf - rf rows static, m = None, nonlinear terms via defNonlin)
+            got = _parse_hist(rep[at], n, nt)
             if isinstance(got, str):
                 ctx.disagree("newmark-mx", spec, "history", got[:40])
                 continue
             ok = True
+            if rf:
+                ctx.count("newmark:rf-assembled")
+                sd = max(sd, float(np.abs(impl["d"][rf]).max()))
             for name, arr, sc in (("d", got[0], sd), ("v", got[1], sd / h), ("a", got[2], sd / h / h)):
                 ok = _cmp(ctx, "newmark-" + ("diag" if _is_diag(spec) else "full") + "-" + name, spec, name,
-                          impl[name][nonrf], arr, sc) and ok
+                          impl[name], arr, sc) and ok
+            if spec.get("terms"):
+                zjobs.append((spec, impl, _zout_request(spec, impl["d"])))
             # scalar instance, DOF by DOF
             for r, i in zip(rep[at + 1: at + cnt], nonrf):
                 g = _parse_hist(r, 1, nt)
@@ -771,6 +838,9 @@ def _corr_newmark(ctx):
         if len(ctx.samples) < 3 and nontriv:
             ctx.sample({"solver": "newmark", "form": spec["form"], "n": n, "nt": nt, "h": h, "rf": rf,
                         "terms": [KINDS[t["kind"]] for t in spec.get("terms") or []], "d_last": impl["d"][:, -1].tolist()})
+    # sol.z: the model's `zOut` evaluated on the implementation's displacement history
+    for (spec, impl, _), r in zip(zjobs, drv.ask([j[2] for j in zjobs])):
+        _z_compare(ctx, "newmark-z", spec, impl.get("z", {}), r)
     for (spec, drf, _), r in zip(rfjobs, drv.ask([j[2] for j in rfjobs])):
         ctx.count("newmark:rf-model")
         if not r.startswith("ok"):
@@ -1014,6 +1084,7 @@ def _corr_sequences(ctx):
         kept.append((spec, len(req)))
         req += lines
     rep = drv.ask(req)
+    zseq = []
     for spec, at in kept:
         res = run_newmark_seq(spec)
         key = json.dumps(spec, sort_keys=True)
@@ -1041,6 +1112,8 @@ def _corr_sequences(ctx):
             if isinstance(got, str):
                 ctx.disagree("newmark-seq-mx", spec, "history (phase %d)" % ip, got[:40])
                 continue
+            if ph["terms"]:
+                zseq.append((spec, pspec, r.get("z", {}), ph["how"], _zout_request(pspec, r["d"])))
             okp = True
             for name, arr, sc in (("d", got[0], sd), ("v", got[1], sd / h), ("a", got[2], sd / h / h)):
                 okp = _cmp(ctx, "newmark-seq-%s-%s" % (ph["how"], name), spec, name, r[name], arr, sc) and okp
@@ -1055,6 +1128,8 @@ def _corr_sequences(ctx):
                                  {"phase": ip, name: float(np.abs(r[name] - fresh[name]).max())}, "the history of a fresh solver object")
                     break
         ctx.case(key, nontrivial=any_nontriv, branch="newmark-seq")
+    for (spec, pspec, zimpl, how, _), r in zip(zseq, drv.ask([j[4] for j in zseq])):
+        _z_compare(ctx, "newmark-seq-z-" + how, pspec, zimpl, r)
 
 
 def correspondence(ctx):
@@ -1140,12 +1215,12 @@ def oracle_newmark(ctx, spec, impl=None, report=None, suffix=""):
     for i, t in enumerate(terms):
         f = _zfun(t)
         for j in range(nt):
-            z = f(Dext if j == 0 else D, j, h)[0]
-            zi = impl["z"]["t%d" % i][0, j]
-            if abs(z - zi) > 1e-9 * max(abs(z), abs(zi), 1e-300):
-                fail("newmark-nonlin-z-" + KINDS[t["kind"]], "sol.z is not func(d, j, h) on the returned history", [j, float(zi)], float(z))
+            z = np.asarray(f(Dext if j == 0 else D, j, h), float)
+            zi = np.asarray(impl["z"]["t%d" % i][:, j], float)
+            if z.shape != zi.shape or np.abs(z - zi).max() > 1e-9 * max(np.abs(z).max(), np.abs(zi).max(), 1e-300):
+                fail("newmark-nonlin-z-" + KINDS[t["kind"]], "sol.z is not func(d, j, h) on the returned history", [j, zi.tolist()], z.tolist())
                 return
-            N[:, j] += np.array(t["T"], float) * z
+            N[:, j] += np.array(t["T"], float).reshape(nn, -1) @ z
     scale = max(np.abs(A @ D).max(), np.abs(A @ um).max(), np.abs(A1 @ D).max(), np.abs(A0 @ D).max(), np.abs(F).max(), np.abs(N).max(), 1e-300)
     rtol = 2e-8
 
